@@ -74,7 +74,7 @@ for k in range(n):
         # where did it die: first memberlist frame
         fr = re.search(r"github\.com/hashicorp/memberlist\.([\w\.\(\)\*]+)", txt[m.start():])
         where = fr.group(1) if fr else "?"
-        where = re.sub(r"[\(\)\*]", "", where)
+        where = re.sub(r"[\(\)\*]|0x[0-9a-f]+", "", where)
         norm = re.sub(r"0x[0-9a-f]+|\d+", "N", msg)[:120]
         case = last.split("\t")[0] if last else "?"
         rp = os.path.join(out, "replay", f"{pid}-s{seed}-c{k}-crash.json")
